@@ -7,20 +7,26 @@ EXTENDS ModuleInit, Json, CSV, IOUtils
 
 CONSTANTS MinN, MaxN
 
-MCInit == \E n \in MinN..MaxN : \E g \in Graphs(n) : InitWith(g)
+\* every assignment of kinds, and every digraph (no self loops) among the libraries that have classes
+GraphsFor(n, k) ==
+  LET B == {b \in 1..n : k[b] = "both"} IN
+    {g \in [1..n -> SUBSET B] : \A l \in 1..n : l \notin g[l] /\ (k[l] # "both" => g[l] = {})}
+MCInit == \E n \in MinN..MaxN : \E k \in [1..n -> Kinds] : \E g \in GraphsFor(n, k) : InitWith(k, g)
 MCSpec == MCInit /\ [][Step]_vars /\ WF_vars(Step)
 
 \* n = 5 and above: the digraph is chosen row by row (the set of all 2^20 functions is too large to
 \* enumerate as initial states); used with -simulate, every trace draws one digraph uniformly
 GenInit ==
+  /\ kind \in [1..MaxN -> Kinds]
   /\ orig = <<>> /\ deps = <<>> /\ placed = <<>> /\ pc = "gen" /\ idx = 1
   /\ addedAny = FALSE /\ broken = {} /\ cycles = <<>> /\ nreports = 0
 GenRow ==
   /\ pc = "gen"
-  /\ \E S \in SUBSET ((1..MaxN) \ {Len(orig) + 1}) :
+  /\ \E S \in SUBSET (IF kind[Len(orig) + 1] = "both"
+                        THEN {b \in 1..MaxN : kind[b] = "both"} \ {Len(orig) + 1} ELSE {}) :
        /\ orig' = Append(orig, S) /\ deps' = orig'
        /\ pc' = IF Len(orig) + 1 = MaxN THEN "start" ELSE "gen"
-  /\ UNCHANGED <<placed, idx, addedAny, broken, cycles, nreports>>
+  /\ UNCHANGED <<kind, placed, idx, addedAny, broken, cycles, nreports>>
 GenSpec == GenInit /\ [][GenRow \/ Step]_vars
 \* the properties, once the digraph is complete
 GOnce == pc = "gen" \/ Once
@@ -30,6 +36,7 @@ GNoBreakIfAcyclic == pc = "gen" \/ NoBreakIfAcyclic
 GBrokenAreOnCycles == pc = "gen" \/ BrokenAreOnCycles
 GCyclesAreCycles == pc = "gen" \/ CyclesAreCycles
 GBounded == pc = "gen" \/ Bounded
+GKeysAreContributors == pc = "gen" \/ KeysAreContributors
 
 \* a fixed family of larger digraphs for the quick tier (rings, chains, complete graphs, nested and
 \* disjoint cycles, a cycle reached from a tail) on n libraries
@@ -51,7 +58,7 @@ Family(n) ==
     [i \in V |-> IF i = n THEN {1, 2} ELSE IF i = 1 THEN {2} ELSE IF i = 2 THEN {n} ELSE {}],        \* cycle 2 -> n -> 2 under n -> 1 -> 2
     [i \in V |-> IF i % 2 = 1 THEN {j \in V : j % 2 = 0} ELSE {}],                                    \* bipartite DAG
     [i \in V |-> IF i % 2 = 1 THEN {j \in V : j % 2 = 0} ELSE {j \in V : j % 2 = 1 /\ j > i}] }     \* bipartite with back edges
-FamInit == \E n \in MinN..MaxN : \E g \in Family(n) : InitWith(g)
+FamInit == \E n \in MinN..MaxN : \E g \in Family(n) : InitWith([i \in 1..n |-> "both"], g)
 FamSpec == FamInit /\ [][Step]_vars /\ WF_vars(Step)
 
 DumpFile == IF "VERIF_DUMP" \in DOMAIN IOEnv THEN IOEnv.VERIF_DUMP ELSE ""
@@ -60,8 +67,8 @@ SetToSeq(S) == LET RECURSIVE F(_) F(T) == IF T = {} THEN <<>> ELSE <<Min(T)>> \o
 
 DumpConstraint ==
   IF DumpFile # "" /\ Done
-    THEN CSVWrite("%1$s", <<ToJson([n |-> N,
-                                     g |-> [i \in 1..N |-> SetToSeq(orig[i])],
+    THEN CSVWrite("%1$s", <<ToJson([n |-> Len(kind), kinds |-> kind,
+                                     g |-> [i \in 1..Len(kind) |-> SetToSeq(orig[i])],
                                      order |-> placed,
                                      broken |-> broken,
                                      cycles |-> cycles,
